@@ -638,6 +638,44 @@ def reject_case(ctx):
     ctx.sig(("reject", spec.nd, nv, how), True)
 
 
+def where_case(ctx):
+    """ufuncs called with where= (and no out=): the selected cells hold the numpy result, the
+    operands are untouched (what the unselected cells hold is numpy's business: not judged)."""
+    import warnings
+    rng = ctx.rng
+    spec, mesh = make_mesh(ctx)
+    nv = int(rng.integers(1, 4))
+    f, fa = make_field(rng, mesh, nv, dtype=gen.pick(rng, ["float", "float", "complex", "int"]))
+    g, ga = make_field(rng, mesh, nv, dtype="float")
+    n = tuple(int(k) for k in mesh.n)
+    mask = rng.random((*n, 1)) < 0.5
+    if rng.random() < 0.5:
+        mask = np.broadcast_to(mask, (*n, nv)).copy()
+    f0, g0 = np.array(f.array), np.array(g.array)
+    v0 = np.array(f.valid)
+    for name, call, ref in (("np.multiply(f, g, where=)", lambda: np.multiply(f, g, where=mask), lambda: f0 * g0),
+                            ("np.negative(f, where=)", lambda: np.negative(f, where=mask), lambda: -f0),
+                            ("np.add(f, 2.5, where=)", lambda: np.add(f, 2.5, where=mask), lambda: f0 + 2.5)):
+        info = {"expr": name, "ndim": spec.nd, "nvdim": nv, "dtype": str(f0.dtype)}
+        try:
+            with warnings.catch_warnings(), np.errstate(all="ignore"):
+                warnings.simplefilter("ignore")
+                r = call()
+        except Exception:  # noqa: BLE001 - refusing the keyword is not judged
+            ctx.event("where.refused")
+            continue
+        ctx.event("where.evaluated")
+        sel = np.broadcast_to(mask, f0.shape)
+        exp = ref()
+        if isinstance(r, df.Field) and r.array.shape == exp.shape:
+            ctx.check("C03.node.values",
+                      bool(np.all(np.abs(r.array[sel] - exp[sel]) <= 4 * EPS * np.abs(exp[sel]))),
+                      note="cells selected by where=", **info)
+        ctx.check("C03.operands_untouched",
+                  np.array_equal(f.array, f0) and np.array_equal(g.array, g0)
+                  and np.array_equal(f.valid, v0), **info)
+
+
 def large_case(ctx):
     """The same cell-by-cell claim on a mesh of 0.9e5 - 1.7e5 cells (odd cell counts): sizes at
     which a blocked or chunked implementation has several blocks and a partial last one."""
@@ -705,5 +743,7 @@ def run_case(ctx, i):
         tree_case(ctx)
     elif kind == 2:
         commute_case(ctx)
+        if ctx.rng.random() < 0.3:
+            where_case(ctx)
     else:
         reject_case(ctx)
